@@ -185,6 +185,21 @@ func (c *Ctx) load(h *Heap, l *Loc) Val {
 			c.asserts = append(c.asserts, lt(v[i], "|alloc@0|"))
 		}
 	}
+	// type invariants of values stored in the entry heap (ranges, slice/interface structure)
+	if len(v) > 0 && l.typ != nil {
+		all := true
+		for _, t := range v {
+			if !isEntryHeapTerm(t) {
+				all = false
+				break
+			}
+		}
+		key := "entryinv@" + strings.Join(v, ",")
+		if all && !c.lazyDone[key] {
+			c.lazyDone[key] = true
+			c.assumeRanges(v, l.typ, sTrue, "")
+		}
+	}
 	return v
 }
 
